@@ -285,3 +285,40 @@ func (m *Model) RunLoadRecursion(s *Sink, rule string) {
 		s.OK(rule, key, "-", "the call graph among the %d loader functions reachable from NewTemplate is acyclic", len(fns))
 	}
 }
+
+// RunCauseKept: fail.FromError turns a native error (a file that cannot be read) into the error the load reports; its
+// message is the text of that very error — `err.Error()` of the parameter, not of something unwrapped from it (the
+// text of an *fs.PathError is what names the file that is missing).
+func (m *Model) RunCauseKept(s *Sink, rule string) {
+	fe := m.PkgFunc("fail", "FromError")
+	if fe == nil || len(fe.Params) == 0 {
+		s.Undecided(rule, "fail.FromError", "-", "not found")
+		return
+	}
+	key := fnKey(fe) + "|the message is the text of the error it was given"
+	n, bad := 0, ""
+	for _, h := range m.helpersOf(fe) {
+		for _, b := range h.Blocks {
+			for _, in := range b.Instrs {
+				c, ok := in.(*ssa.Call)
+				if !ok || !c.Call.IsInvoke() || c.Call.Method.Name() != "Error" {
+					continue
+				}
+				n++
+				for _, r := range m.resolveUp(c.Call.Value, fe, 0) {
+					if r != ssa.Value(fe.Params[0]) && bad == "" {
+						bad = fmt.Sprintf("%s at %s", valueDesc(r), m.InstrPos(c))
+					}
+				}
+			}
+		}
+	}
+	switch {
+	case n == 0:
+		s.Undecided(rule, key, m.Pos(fe.Pos()), "no call of Error() found in FromError")
+	case bad != "":
+		s.Violation(rule, key, m.Pos(fe.Pos()), "FromError takes the text of %s instead of the error it was given: what an unwrapped cause says (\"no such file or directory\") no longer names the file, so a missing layout or component is reported without its path or name", bad)
+	default:
+		s.OK(rule, key, m.Pos(fe.Pos()), "Error() is called on the parameter itself")
+	}
+}
